@@ -25,6 +25,9 @@ def _judge(module, trace):
         from .check_threads import ThreadRunner
 
         res, _ = tlc.validate_traces("MCThreadCoarse", ThreadRunner.COARSE_CFG, [trace], nd=2)
+        (v0, l0), (v1, l1) = res[0]
+        if v0 != "ACCEPT" and v1 == "ACCEPT":
+            return ("REJECT-BUT:ActivateEvicted", l0)
         return res[0][0]
     if module == "Establish":
         from . import establish
@@ -124,6 +127,15 @@ def replay(prop, path):
             verdict = v2[0]
         else:
             print("  (no re-execution: not an async scenario with a stored decision list)")
+    if verdict.startswith("REJECT-BUT:"):
+        from .checklib import Findings
+
+        dev = verdict.split(":", 1)[1]
+        f, mine = Findings().match(prop, {"module": "Pool", "deviation": [dev], "stimulus": (d.get("meta") or {}).get("stimuli", [])})
+        if f is not None and mine:
+            print(f"KNOWN-FINDING: property={prop} {f['id']}: the execution is a behaviour of the specification with deviation {dev}")
+            return 0
+        verdict = "REJECT"
     if verdict != "ACCEPT":
         print(f"VIOLATION property={prop} replay={path}")
         return 1
